@@ -121,6 +121,24 @@ class RequiredTokensOracle(Oracle):
         return self.memo[toks]
 
 
+class SameShapeOracle(RequiredTokensOracle):
+    """Required tokens as above, and the candidate must have exactly as many
+    tokens as the original: a command that only tolerates leaf-for-leaf
+    replacements (the accepted inputs then all have the same size - and the
+    same pickled length - which is what stale-cache bugs need)."""
+
+    def __init__(self, decider, keys, original):
+        RequiredTokensOracle.__init__(self, decider, keys, original)
+        self.n = len(original.split(' '))
+
+    def verdict(self, toks):
+        if toks not in self.memo:
+            ts = toks.split(' ')
+            self.memo[toks] = (len(ts) == self.n
+                               and all(k in ts for k in self.required))
+        return self.memo[toks]
+
+
 class ConsistentNumeralsOracle(RequiredTokensOracle):
     """Required tokens as above, and all numerals of the candidate must be
     one and the same number: replacing a single occurrence of a constant
